@@ -649,7 +649,7 @@ def main(check, argv=None):
                     case = None
                 confirmed = False
                 if case is not None:
-                    vs, _ = _replay_guarded(check, parts, findings, part.name, case, allowance=60)
+                    vs, _ = _replay_guarded(check, parts, findings, part.name, case, allowance=180)
                     confirmed = any(v.kind == 'NO_RETURN' for v in vs)
                 if confirmed:
                     confirmed_hangs += 1
